@@ -2,7 +2,7 @@
 //! of all ops-satisfying assignments over a value alphabet (define-or-check mode).
 //!
 //!   Const      w[out] = val
-//!   Public     nothing (free slot)
+//!   Public     nothing (free slot); private-input rows likewise (free, supplied from outside)
 //!   Add        w[a] + w[b] = w[out]
 //!   Mul        w[a] * w[b] = w[out]
 //!   BoolCheck  w[a] (w[a] - 1) = 0
@@ -94,8 +94,18 @@ impl<F: Field> OpSem<F> {
                 Op::NonPrimitiveOpWithExecutor { .. } => unsupported = true,
             }
         }
+        // private inputs have no op: their slots are supplied from outside, like Public rows
+        let mut priv_slots: Vec<usize> = circuit.private_input_rows.iter().map(w).collect();
+        priv_slots.sort();
+        priv_slots.dedup();
+        for &i in &priv_slots {
+            mark(i, &mut mentioned);
+        }
         let n = mentioned.len();
         let mut steps = vec![];
+        for &i in &priv_slots {
+            steps.push(Step::Free(vec![i]));
+        }
         for op in &circuit.ops {
             match op {
                 Op::Const { out, val } => steps.push(Step::Const {
